@@ -32,7 +32,7 @@ ANCHORS = ['hash:hash_file', 'hash:hash_path', 'hash:get_hash_by_name',
            'cli:HashCommand.__call__']
 REQUIRED = ['hash:hash_file', 'verify:get_file_metadata', 'kat_checked',
             'short_read_cases', 'pipe_cases', 'unsupported_cases', 'inplace_cases',
-            'fifo_cases', 'entry_cases']
+            'fifo_cases', 'entry_cases', 'real_file_cases']
 ASSUMPTIONS = ['oracle digests: hashlib one-shot, cross-checked on a sample against '
                'coreutils (md5sum sha1sum sha256sum sha512sum b2sum) and openssl dgst',
                'WHIRLPOOL is not provided by this Python/OpenSSL: UnsupportedHash is '
@@ -149,7 +149,17 @@ def check_result(ctx, api, got, want, case):
 def run_hash_file(ctx, data, names, hint, sched_seed, maxchunk, case):
     from gemato import hash as gh
     rng = common.rng_for('sched', sched_seed)
-    if sched_seed is None:
+    scratch = None
+    if sched_seed == 'file':
+        # a real file on disk (descriptor, fstat-able, mmap-able), hint still as given
+        scratch = common.Scratch('vf-c17f-')
+        d = scratch.__enter__()
+        with open(os.path.join(d, 'f'), 'wb') as fh:
+            fh.write(data)
+        f = open(os.path.join(d, 'f'), 'rb')
+        raw = None
+        ctx.count('real_file_cases')
+    elif sched_seed is None:
         f = io.BytesIO(data)
         raw = None
     else:
@@ -163,6 +173,10 @@ def run_hash_file(ctx, data, names, hint, sched_seed, maxchunk, case):
         ctx.violation('raises:hash_file:' + adapt.exc_key(exc),
                       'hash_file raised %r on supported names' % (exc,), case)
         return
+    finally:
+        if scratch is not None:
+            f.close()
+            scratch.__exit__(None, None, None)
     want = model_digests(names, data)
     check_result(ctx, 'hash_file', got, want, case)
     if raw is not None and '__size__' in got and got['__size__'] != raw.delivered:
@@ -313,6 +327,9 @@ def run_len(u, ctx):
             names = sorted(rng.sample(allh, rng.randint(1, 4))) + ['__size__']
             exec_case({'kind': 'hash_file', 'content': content, 'names': names,
                        'hint': hint, 'sched': None}, ctx)
+            if n >= 65534 or n % 50 == 0:
+                exec_case({'kind': 'hash_file', 'content': content, 'names': names,
+                           'hint': hint, 'sched': 'file'}, ctx)
             exec_case({'kind': 'hash_file', 'content': content, 'names': names,
                        'hint': hint, 'sched': rng.randrange(1 << 30),
                        'maxchunk': rng.choice([1, 7, 100, 4096, 65535, 65536,
@@ -333,6 +350,8 @@ def run_rand(u, ctx):
     allh = fixed_hashlib_names()
     for hint in rng.sample(hints_for(n), 4):
         names = sorted(rng.sample(allh, rng.randint(1, 3))) + ['__size__']
+        exec_case({'kind': 'hash_file', 'content': content, 'names': names,
+                   'hint': hint, 'sched': 'file'}, ctx)
         exec_case({'kind': 'hash_file', 'content': content, 'names': names,
                    'hint': hint, 'sched': rng.randrange(1 << 30),
                    'maxchunk': rng.choice([1000, 65535, 65536, 65537, 300000])}, ctx)
